@@ -397,7 +397,7 @@ func (tw *tworld) sendOutbound(o outbound, sport uint16) (emitted int, panicked 
 func TestC06(t *testing.T) {
 	env := kit.GetEnv()
 	rep := kit.NewReport("C06", env)
-	rep.Rule = "configurations: {tcp,udp,http,https,icmp6,ping6} x {explicit port 8080, default port} x {public, friends, for=[IP], for=[friend name], friends+for} x friends in {none,{F1},{F1,F2}} x isolate {off,on} (thorough: all ordered pairs of services over {public, friends, for=[IP], friends+for} incl. colliding keys), each through the real Store parser; per accepted configuration on one real router with four real keyed neighbours: inbound packets = sender {friend, friend2, listed, stranger} x protocol {0,1,6,17,58,255} x dst port {0,80,443,8080,81} x inner src {sender, other} x inner dst {self, other, API address} x frame {sealed by sender, sealed by another router, garbage, sealed by sender and label-switched with a switch block that R's switch rotates (2 shapes)}, judged on the bytes the tun writer puts on the interface; outbound = src {own, foreign} x dst {friend, stranger, listed, multicast, non-Mycoria, unrouted Mycoria} x protocol {6,17,58} ; plus multi-step sequences over mirrored 5-tuples (verdict cache), including expiry of the cached verdict through the real cleaner after 11 minutes of virtual time, and refused flows (inbound without service, outbound against isolation) after each of six authentic error notices (unreachable naming the peer from a third router; generic, unreachable, no-encryption-keys followed by fresh key setup, access-denied, rejected from the peer itself), after a fresh key setup started by the peer and after a pong exchange with it + pauses + cleaner runs; each packet uses a fresh source port so verdicts are independent unless a sequence says otherwise; non-trivial = packets whose reference verdict is 'deliver' or that deviate in exactly one condition from a deliverable packet; distinct = distinct (configuration, packet)"
+	rep.Rule = "configurations: {tcp,udp,http,https,icmp6,ping6} x {explicit port 8080, default port} x {public, friends, for=[IP], for=[friend name], friends+for} x friends in {none,{F1},{F1,F2}} x isolate {off,on} (thorough: all ordered pairs of services over {public, friends, for=[IP], friends+for} incl. colliding keys), each through the real Store parser; per accepted configuration on one real router with four real keyed neighbours: inbound packets = sender {friend, friend2, listed, stranger} x protocol {0,1,6,17,58,255; every other protocol number 0..255 as a deviation-free packet} x dst port {0,80,443,8080,81} x inner src {sender, other} x inner dst {self, other, API address} x frame {sealed by sender, sealed by another router, garbage, sealed by sender and label-switched with a switch block that R's switch rotates (2 shapes)}, judged on the bytes the tun writer puts on the interface; outbound = src {own, foreign} x dst {friend, stranger, listed, multicast, non-Mycoria, unrouted Mycoria} x protocol {6,17,58} ; plus multi-step sequences over mirrored 5-tuples (verdict cache), including expiry of the cached verdict through the real cleaner after 11 minutes of virtual time, and refused flows (inbound without service, outbound against isolation) after each of six authentic error notices (unreachable naming the peer from a third router; generic, unreachable, no-encryption-keys followed by fresh key setup, access-denied, rejected from the peer itself), after a fresh key setup started by the peer and after a pong exchange with it + pauses + cleaner runs; each packet uses a fresh source port so verdicts are independent unless a sequence says otherwise; non-trivial = packets whose reference verdict is 'deliver' or that deviate in exactly one condition from a deliverable packet; distinct = distinct (configuration, packet)"
 	rep.Assumptions = []string{
 		"the verdict cache is by design: a packet mirroring the 5-tuple of a previously allowed flow in the other direction shares that flow's verdict; single-packet cases use fresh tuples, the cache is exercised in dedicated two-step sequences and judged with the same memo in the reference",
 		"'enters the mesh' = a frame emitted by R on any virtual link while the local packet is handled (traffic frame or hello ping)",
@@ -433,7 +433,12 @@ func TestC06(t *testing.T) {
 			sport := uint16(20000)
 			// ---- inbound singles
 			for _, sender := range []int{iF1, iF2, iL, iX} {
-				for _, proto := range []uint8{0, 1, 6, 17, 58, 255} {
+				for pi := 0; pi < 256; pi++ {
+					proto := uint8(pi)
+					// the six core protocols go through the whole grid; EVERY other protocol number
+					// is sent as a deviation-free packet (a policy keyed by (protocol, port) must not
+					// confuse any (protocol, port) pair with a configured one).
+					core := proto == 0 || proto == 1 || proto == 6 || proto == 17 || proto == 58 || proto == 255
 					for _, dport := range []uint16{0, 80, 443, 8080, 81} {
 						for _, innerSrc := range []int{sender, iX, iF1} {
 							if innerSrc != sender && innerSrc == iX && sender == iX {
@@ -453,7 +458,7 @@ func TestC06(t *testing.T) {
 									if validity != 0 {
 										dev++
 									}
-									if dev > 1 {
+									if dev > 1 || (dev > 0 && !core) {
 										continue
 									}
 									p := inbound{sender, proto, dport, innerSrc, innerDst, validity}
